@@ -1,4 +1,5 @@
 import MQ.Inv.RingMain
+import MQ.Inv.WakeMain
 /-!
 # C14 — a parked futures task is always notified when it can make progress
 The protocol facts that exclude a lost wake-up, at the granularity of single shared-memory operations:
@@ -69,5 +70,22 @@ made a sender park): an inner `try_recv` that ended `Empty` continues with the p
 theorem C14_poll_empty_notifies_producers (σ : St) (t j : Nat) (ho : (σ.th t).outer = .poll false) :
     ((recvDone σ t .empty j).th t).pc = .nf true 12 := by
   simp [recvDone, ho, St.goto, St.setTh, upd]
+
+/-- C14 (no lost wake-up for a parked consumer task — for every execution in which the consumers' list lock is
+mutual exclusion): in every reachable state of a futures queue, if a task is parked on the consumers' list for
+slot `j` / sequence number `seq` and its wake-up condition holds *now*, then some thread is a pending notifier
+of that list (it has published a slot or taken the writer count down and has not yet drained the list). The
+notifier only stops being pending by draining the list, which notifies every parked task. -/
+theorem C14_no_lost_wakeup_consumers_partial (N : Nat) (bcast : Bool) (wait : WaitK) (fut : Bool)
+    (ls : List Label) (σ : St) (r : WRun (init N bcast wait fut) ls σ) (a b : Nat) (hw : σ.wait = .fut a b)
+    (t j seq : Nat) (hp : t ∈ σ.cwaitL) (hf : σ.cwFor t = (j, seq))
+    (hc : checkVal seq (σ.tag j) σ.writers = true) : ∃ u, (σ.th u).pc.pendF = true :=
+  (winv_wrun r (winv_init N bcast wait fut)).w3 a b hw t j seq ⟨hp, hf⟩ hc
+
+/-- C14 (a pending list notifier stays one until it has drained the list) -/
+theorem C14_pending_notifier_persists (σ : St) (x inp a b : Nat) (hw : σ.wait = .fut a b)
+    (hp : (σ.th x).pc.pendF = true) (hn : ∀ k, (σ.th x).pc ≠ .nf false k) :
+    ((stepRun σ x inp).2.th x).pc.pendF = true :=
+  pendF_step σ x inp a b hw hp hn
 
 end MQ
